@@ -41,15 +41,17 @@ theorem toG2O_ok_parts (env : Env A) (g : Graph A) (text : Str) (h : Graph.toG2O
       · exact hall _ (by simp only [List.mem_append, List.mem_map]; exact Or.inr ⟨e, he, rfl⟩)
   · rw [if_neg hp] at h; simp at h
 
-/-- the shapes of edges for which `to_g2o` returns text (`k0` = class of the first vertex's pose) -/
-def EdgeShape (env : Env A) (k0 : PoseKind) (e : Edge A) : Prop :=
+/-- the shapes of edges for which `to_g2o` returns text (`k0`, `k1` = classes of the poses of the two bound vertices):
+exactly the list of the property — odometry between SE(2) or SE(3) poses, landmark SE(2) → R² with an identity offset,
+landmark SE(3) → R³ -/
+def EdgeShape (env : Env A) (k0 : PoseKind) (k1 : Except PyErr PoseKind) (e : Edge A) : Prop :=
   match e.body with
   | .custom _ _ _ => True
   | .odometry _ => k0 = .se2 ∨ k0 = .se3
-  | .landmark _ off _ => (k0 = .se2 ∧ numEqList env off.xs (identitySE2 env) = true) ∨ k0 = .se3
+  | .landmark _ off _ => (k0 = .se2 ∧ k1 = .ok .r2 ∧ numEqList env off.xs (identitySE2 env) = true) ∨ (k0 = .se3 ∧ k1 = .ok .r3)
 
-theorem toG2O_edge_shape (env : Env A) (k0 : PoseKind) (e : Edge A) (r : Option Str) (h : Edge.toG2O env k0 e = .ok r) :
-    EdgeShape env k0 e := by
+theorem toG2O_edge_shape (env : Env A) (k0 : PoseKind) (k1 : Except PyErr PoseKind) (e : Edge A) (r : Option Str)
+    (h : Edge.toG2O env k0 k1 e = .ok r) : EdgeShape env k0 k1 e := by
   obtain ⟨ids, info, body⟩ := e
   cases body with
   | custom c est out => trivial
@@ -57,16 +59,34 @@ theorem toG2O_edge_shape (env : Env A) (k0 : PoseKind) (e : Edge A) (r : Option 
   | landmark est off oid =>
     cases k0 with
     | se2 =>
-      by_cases hn : numEqList env off.xs (identitySE2 env) = true
-      · exact Or.inl ⟨rfl, hn⟩
-      · simp [Edge.toG2O, hn] at h
-    | se3 => exact Or.inr rfl
+      cases k1 with
+      | error x => simp [Edge.toG2O] at h
+      | ok k =>
+        cases k with
+        | r2 =>
+          by_cases hn : numEqList env off.xs (identitySE2 env) = true
+          · exact Or.inl ⟨rfl, rfl, hn⟩
+          · simp [Edge.toG2O, hn] at h
+        | r3 => simp [Edge.toG2O] at h
+        | se2 => simp [Edge.toG2O] at h
+        | se3 => simp [Edge.toG2O] at h
+        | other => simp [Edge.toG2O] at h
+    | se3 =>
+      cases k1 with
+      | error x => simp [Edge.toG2O] at h
+      | ok k =>
+        cases k with
+        | r3 => exact Or.inr ⟨rfl, rfl⟩
+        | r2 => simp [Edge.toG2O] at h
+        | se2 => simp [Edge.toG2O] at h
+        | se3 => simp [Edge.toG2O] at h
+        | other => simp [Edge.toG2O] at h
     | r2 => simp [Edge.toG2O] at h
     | r3 => simp [Edge.toG2O] at h
     | other => simp [Edge.toG2O] at h
 
 theorem write_edge_shape (env : Env A) (vs : List (Vertex A)) (e : Edge A) (l : Str) (h : Edge.write env vs e = .ok l) :
-    (∃ c est out, e.body = .custom c est out) ∨ ∃ k0, Edge.kind0 vs e = .ok k0 ∧ EdgeShape env k0 e := by
+    (∃ c est out, e.body = .custom c est out) ∨ ∃ k0, Edge.kind0 vs e = .ok k0 ∧ EdgeShape env k0 (Edge.kind1 vs e) e := by
   obtain ⟨ids, info, body⟩ := e
   cases body with
   | custom c est out => exact Or.inl ⟨c, est, out, rfl⟩
@@ -77,9 +97,9 @@ theorem write_edge_shape (env : Env A) (vs : List (Vertex A)) (e : Edge A) (l : 
     | error x => simp [hk] at h
     | ok k0 =>
       rw [hk] at h
-      cases ht : Edge.toG2O env k0 ⟨ids, info, .odometry est⟩ with
+      cases ht : Edge.toG2O env k0 (Edge.kind1 vs ⟨ids, info, .odometry est⟩) ⟨ids, info, .odometry est⟩ with
       | error x => simp [ht] at h
-      | ok r => exact ⟨k0, rfl, toG2O_edge_shape env k0 _ r ht⟩
+      | ok r => exact ⟨k0, rfl, toG2O_edge_shape env k0 _ _ r ht⟩
   | landmark est off oid =>
     right
     simp only [Edge.write] at h
@@ -87,8 +107,8 @@ theorem write_edge_shape (env : Env A) (vs : List (Vertex A)) (e : Edge A) (l : 
     | error x => simp [hk] at h
     | ok k0 =>
       rw [hk] at h
-      cases ht : Edge.toG2O env k0 ⟨ids, info, .landmark est off oid⟩ with
+      cases ht : Edge.toG2O env k0 (Edge.kind1 vs ⟨ids, info, .landmark est off oid⟩) ⟨ids, info, .landmark est off oid⟩ with
       | error x => simp [ht] at h
-      | ok r => exact ⟨k0, rfl, toG2O_edge_shape env k0 _ r ht⟩
+      | ok r => exact ⟨k0, rfl, toG2O_edge_shape env k0 _ _ r ht⟩
 
 end GraphSlam.Props.C13
